@@ -385,16 +385,56 @@ Qed.
 (* Apply                                                               *)
 (* ================================================================== *)
 
-Lemma apply_col_length id d d' : apply_col id d = Ok d' -> length d' = length d.
+(* Functions 10 and 11 of the menu return a slice of another length, and column-wise Apply
+   stores whatever slice it gets.  The length of the stored slice is a function of the
+   function id and of the length of the column alone: *)
+Definition apply_len (id n : nat) : nat :=
+  match id with
+  | 10%nat => Nat.div2 n
+  | 11%nat => S n
+  | _ => n
+  end.
+
+Lemma div2_le n : (Nat.div2 n <= n)%nat.
+Proof. pose proof (Nat.div2_odd n) as H. lia. Qed.
+
+Lemma apply_col_length_gen id d d' :
+  apply_col id d = Ok d' -> length d' = apply_len id (length d).
 Proof.
   unfold apply_col.
-  destruct id as [|[|[|[|[|[|[|[|[|[|n]]]]]]]]]]; cbn [apply_fn]; intros H;
+  destruct id as [|[|[|[|[|[|[|[|[|[|[|[|n]]]]]]]]]]]]; cbn [apply_fn apply_len]; intros H;
     try discriminate; injection H as <-;
-    rewrite ?map_length, ?rev_length, ?repeat_length, ?seq_length; reflexivity.
+    rewrite ?map_length, ?rev_length, ?repeat_length, ?seq_length; try reflexivity.
+  - apply firstn_length_le. apply div2_le.
+  - rewrite app_length. cbn [length]. lia.
 Qed.
 
-Lemma wf_apply_col : forall id f g, wf_frame f = true ->
-  op_apply_col id f = Ok g -> wf_frame g = true.
+Lemma apply_len_keeps id n : fn_keeps_length id = true -> apply_len id n = n.
+Proof.
+  unfold fn_keeps_length.
+  destruct id as [|[|[|[|[|[|[|[|[|[|[|[|k]]]]]]]]]]]]; cbn; intros H; try reflexivity; discriminate.
+Qed.
+
+(* the functions that keep the length: the new column is as long as the old one.
+   Without the premise the statement is false:
+   apply_col 11 [CNil] = Ok [CNil; CS s_k],  apply_col 10 [CNil; CNil] = Ok [CNil]. *)
+Lemma apply_col_length id d d' : fn_keeps_length id = true ->
+  apply_col id d = Ok d' -> length d' = length d.
+Proof.
+  intros Hk H. rewrite (apply_col_length_gen _ _ _ H). apply apply_len_keeps. exact Hk.
+Qed.
+
+Example apply_col_length_needs_premise :
+  apply_col 11 [CNil] = Ok [CNil; CS s_k] /\ apply_col 10 [CNil; CNil] = Ok [CNil] /\
+  fn_keeps_length 10 = false /\ fn_keeps_length 11 = false /\ fn_keeps_length 8 = true.
+Proof. vm_compute. repeat split. Qed.
+
+(* Column-wise Apply on a well-formed frame: every column has nrows f cells, so every new
+   column has apply_len id (nrows f) cells - the result is rectangular for EVERY function of
+   the menu, also for the two that change the length (all columns change alike).  No premise
+   on the function is needed; the number of rows of the result is apply_len id (nrows f). *)
+Lemma wfn_apply_col : forall id f g, wf_frame f = true ->
+  op_apply_col id f = Ok g -> wfn (apply_len id (nrows f)) g = true.
 Proof.
   intros id f g Hf. unfold op_apply_col.
   destruct (null f); try discriminate.
@@ -403,13 +443,26 @@ Proof.
   intros H. injection H as <-.
   apply out_all_map_inv in E.
   rewrite wf_wfn in Hf. apply wfn_parts in Hf. destruct Hf as [Hf1 [_ Hf3]].
-  apply (wfn_wf (nrows f)).
   apply (wfn_rebuild _ _ f cols E Hf3).
   intros [k c] y Hin Hy. subst h. cbn [fst snd] in Hy |- *.
   destruct (apply_col id (cdata c)) as [d| |] eqn:A; cbn [bind] in Hy; try discriminate.
   injection Hy as <-. exists d. split; [reflexivity|].
-  rewrite (apply_col_length _ _ _ A).
-  pose proof (forallb_In _ _ _ Hf1 Hin) as L1. cbn [snd] in L1. apply Nat.eqb_eq in L1. exact L1.
+  rewrite (apply_col_length_gen _ _ _ A).
+  pose proof (forallb_In _ _ _ Hf1 Hin) as L1. cbn [snd] in L1. apply Nat.eqb_eq in L1.
+  rewrite L1. reflexivity.
+Qed.
+
+Lemma wf_apply_col : forall id f g, wf_frame f = true ->
+  op_apply_col id f = Ok g -> wf_frame g = true.
+Proof.
+  intros id f g Hf H. apply (wfn_wf (apply_len id (nrows f))). exact (wfn_apply_col id f g Hf H).
+Qed.
+
+(* with a length-keeping function the number of rows is kept as well *)
+Lemma wfn_apply_col_keeps : forall id f g, fn_keeps_length id = true -> wf_frame f = true ->
+  op_apply_col id f = Ok g -> wfn (nrows f) g = true.
+Proof.
+  intros id f g Hk Hf H. rewrite <- (apply_len_keeps id (nrows f) Hk). exact (wfn_apply_col id f g Hf H).
 Qed.
 
 Lemma transpose_length nc rws : length (transpose nc rws) = nc.
@@ -465,6 +518,8 @@ Proof.
   destruct Hf as [_ [_ Hs]]. exact (wf_apply_row_sorted id f g Hs H).
 Qed.
 
+(* neither axis needs a premise on the function: row-wise every row result is cut to exactly
+   ncols f cells (or the call is an error), column-wise all columns change length alike *)
 Lemma wf_apply : forall id f axis g, wf_frame f = true ->
   op_apply id f axis = Ok g -> wf_frame g = true.
 Proof.
@@ -526,6 +581,16 @@ Example ex_add_apply_describe :
   match op_apply 4 ex_f1 None with
   | Ok g => wf_frame g && Nat.eqb (ncols g) 2 && Nat.eqb (nrows g) 3
   | _ => false end = true /\
+  match op_apply 10 ex_f1 None with     (* the shortening function: 3 rows become 1 *)
+  | Ok g => wf_frame g && Nat.eqb (ncols g) 2 && Nat.eqb (nrows g) 1
+  | _ => false end = true /\
+  match op_apply 11 ex_f1 (Some [0]) with   (* the lengthening function: 3 rows become 4 *)
+  | Ok g => wf_frame g && Nat.eqb (ncols g) 2 && Nat.eqb (nrows g) 4
+  | _ => false end = true /\
+  match op_apply 11 ex_f1 (Some [1]) with   (* row-wise: the extra cell is cut off *)
+  | Ok g => wf_frame g && Nat.eqb (ncols g) 2 && Nat.eqb (nrows g) 3
+  | _ => false end = true /\
+  op_apply 10 ex_f1 (Some [1]) = Err /\     (* row-wise: too few cells is an error *)
   wf_frame (op_describe O0 ex_f1) && Nat.eqb (ncols (op_describe O0 ex_f1)) 2 = true.
 Proof. vm_compute. repeat split. Qed.
 
